@@ -138,6 +138,7 @@ structure Irc where
   lastPing : Nat
   outstandingPing : Bool
   echoAcked : Bool          -- 'echo-message' in state.capabilities_ack
+  labelAcked : Bool := false  -- 'labeled-response' in state.capabilities_ack
   echoed : List Oid         -- objects carrying the `emulatedEcho` tag: the echo copies fed back
   nextOid : Nat             -- supply of identities for objects created inside the bot
 
@@ -197,7 +198,7 @@ def queueConnectMessages (s : Irc) : Irc × List Ev :=
 /-- `Irc.reset()` -/
 def reset (s : Irc) : Irc × List Ev :=
   let s1 := { s with lastTake := 0, afterConnect := false, lastPing := s.now,
-                     outstandingPing := false, echoAcked := false,
+                     outstandingPing := false, echoAcked := false, labelAcked := false,
                      queue := Queue.empty, fast := [] }
   let r := queueConnectMessages s1
   (r.1, .discarded s.pending :: r.2)
@@ -215,6 +216,29 @@ def runFilters : List Filter → Nat → Msg → Option Msg × Nat
 
 def upper (s : Str) : Str := s.map asciiUpperChar
 
+/-! ### the labeled-response label
+
+`if not world.testing and 'label' not in msg.server_tags and 'labeled-response' in
+self.state.capabilities_ack: msg.server_tags['label'] = ircutils.makeLabel()` — done on the message
+object itself, before the outFilters see it.  It is the first link of the filter chain: same object,
+one more server tag (which `==` compares).  `makeLabel()` draws a random string; the model uses the
+fresh number every link of the chain is given, so labels are pairwise distinct here as well. -/
+
+def labelKey : Str := ['l', 'a', 'b', 'e', 'l']
+
+def hasLabel (c : Content) : Bool := c.tags.any (fun kv => kv.1 = labelKey)
+
+/-- `<` of Python strings (code points, lexicographic): the harness hands the tag dict over sorted by key -/
+def strLt : Str → Str → Bool
+  | [], [] => false
+  | [], _ :: _ => true
+  | _ :: _, [] => false
+  | a :: as, b :: bs => if a.toNat < b.toNat then true else if b.toNat < a.toNat then false else strLt as bs
+
+def insertTag (k : Str) (v : Option Str) : List (Str × Option Str) → List (Str × Option Str)
+  | [] => [(k, v)]
+  | kv :: r => if strLt k kv.1 then (k, v) :: kv :: r else kv :: insertTag k v r
+
 /-- `str(int(now))` -/
 def decAux : Nat → Nat → Str → Str
   | 0, _, acc => acc
@@ -223,6 +247,15 @@ def decAux : Nat → Nat → Str → Str
     if n / 10 = 0 then acc' else decAux fuel (n / 10) acc'
 
 def natDec (n : Nat) : Str := decAux (n + 1) n []
+
+/-- the label step as a link of the chain -/
+def labelFilter : Filter := fun n m =>
+  some (if hasLabel m.c then m
+        else ⟨m.oid, { m.c with tags := insertTag labelKey (some (['a', 'u', 't', 'o'] ++ natDec n)) m.c.tags }⟩)
+
+/-- what a dequeued message goes through: the label step (when negotiated), then the outFilters -/
+def Irc.chain (s : Irc) : List Filter :=
+  if s.labelAcked then labelFilter :: s.cfg.filters else s.cfg.filters
 
 /-- `msg.command.upper() in ('PRIVMSG', 'NOTICE', 'TAGMSG')` -/
 def isEchoCmd (cmd : Str) : Bool := upper cmd ∈ Gen.echoCommands
@@ -255,7 +288,7 @@ deriving DecidableEq, Repr
 echo is a tagged *copy* (a new object) of the outgoing message; the assertion still refuses a
 message that itself carries the tag (an echo copy some plugin sends back). -/
 def deliver (s : Irc) (m : Msg) : Irc × Delivery :=
-  match runFilters s.cfg.filters s.nextOid m with
+  match runFilters s.chain s.nextOid m with
   | (none, n) => ({ s with nextOid := n }, .dropped)
   | (some out, n) =>
     let s1 := { s with nextOid := n }
@@ -320,6 +353,7 @@ inductive Op where
   | connected            -- end of MOTD: `afterConnect = True`
   | pong                 -- a PONG arrived: `outstandingPing = False`
   | capEcho (b : Bool)   -- the server (un)acknowledged `echo-message`
+  | capLabel (b : Bool)  -- the server (un)acknowledged `labeled-response`
   | config (c : Cfg)
 
 def step (s : Irc) : Op → Irc × List Ev
@@ -332,6 +366,7 @@ def step (s : Irc) : Op → Irc × List Ev
   | .connected => ({ s with afterConnect := true }, [])
   | .pong => ({ s with outstandingPing := false }, [])
   | .capEcho b => ({ s with echoAcked := b }, [])
+  | .capLabel b => ({ s with labelAcked := b }, [])
   | .config c => ({ s with cfg := c }, [.config c.throttle c.joinLimit])
 
 def run : Irc → List Op → Irc × List Ev
@@ -345,7 +380,7 @@ def run : Irc → List Op → Irc × List Ev
 def blank (c : Cfg) (now : Nat) : Irc :=
   { cfg := c, now := now, queue := Queue.empty, fast := [], lastTake := 0, zombie := false,
     afterConnect := false, lastPing := now, outstandingPing := false, echoAcked := false,
-    echoed := [], nextOid := 0 }
+    labelAcked := false, echoed := [], nextOid := 0 }
 
 /-- `Irc(network)`: the connect messages are already in the fast queue -/
 def init (c : Cfg) (now : Nat) : Irc × List Ev :=
